@@ -1,13 +1,133 @@
-"""C05 bounded part: run-time contract on the records / candidates of the real program (see bcheck.records)."""
+"""C05 bounded part: (a) run-time contract on the records / candidates of the real program (see bcheck.records);
+(b) the two selection functions called directly on small exhaustive lattices (ties included)."""
+import itertools
+from types import SimpleNamespace
+
 from bcheck import pipe_driver as pd
+from bcheck.common import pmap, result, merge
+
+FILT = 'src/alignment/alignment_results.py::AlignmentResults.filterOutSubsequentAlignmentsForSingleQuery'
+SEL = 'src/correlation/peaks_selector.py::PeaksSelector.selectPeaks'
+
+
+def filter_case(case):
+    """case: tuple of (queryId, confidence); stub rows carry exactly the two attributes the function reads"""
+    from src.alignment.alignment_results import AlignmentResults
+    rows = [SimpleNamespace(queryId=q, confidence=c, n=i) for i, (q, c) in enumerate(case)]
+    out = list(AlignmentResults.filterOutSubsequentAlignmentsForSingleQuery(list(rows)))
+    bad = []
+    ids = [r.queryId for r in out]
+    if any(all(r is not x for x in rows) for r in out):
+        bad.append('every_result_row_is_an_input_row')
+    if ids != sorted(set(q for q, _ in case)):
+        bad.append('one_row_per_query_in_ascending_query_id')
+    for r in out:
+        if r.confidence != max(c for q, c in case if q == r.queryId):
+            bad.append('kept_row_has_the_highest_confidence_of_its_query')
+            break
+    return bad
+
+
+def select_case(case):
+    """case: (count, tuple of tuples of scores) - one inner tuple per correlation"""
+    from src.correlation.peaks_selector import PeaksSelector
+    count, corr = case
+    cs = [SimpleNamespace(peaks=[SimpleNamespace(score=s, position=10 * j + i) for i, s in enumerate(scores)], n=j) for j, scores in enumerate(corr)]
+    out = list(PeaksSelector(count).selectPeaks(iter(cs)))
+    bad = []
+    total = sum(len(c.peaks) for c in cs)
+    if len(out) != min(max(count, 0), total):
+        bad.append('at_most_peaksCount_seeds' if len(out) > max(count, 0) else 'as_many_seeds_as_available_up_to_peaksCount')
+    allp = [(c, p) for c in cs for p in c.peaks]
+    if any(all(not (sp.primaryCorrelation is c and sp.peak is p) for c, p in allp) for sp in out):
+        bad.append('every_seed_is_a_peak_of_its_correlation')
+    if len({id(sp.peak) for sp in out}) != len(out):
+        bad.append('no_peak_selected_twice')
+    sc = [sp.peak.score for sp in out]
+    if sc != sorted(sc, reverse=True):
+        bad.append('descending_scores')
+    chosen = {id(sp.peak) for sp in out}
+    if out and any(p.score > min(sc) for c, p in allp if id(p) not in chosen):
+        bad.append('no_dropped_peak_scores_higher')
+    return bad
+
+
+def unit_chunk(chunk):
+    kind, cases = chunk
+    f = filter_case if kind == 'filter' else select_case
+    out, nt = [], 0
+    for c in cases:
+        try:
+            bad = f(c)
+        except Exception as e:
+            bad = [f"no_exception:{type(e).__name__}"]
+        if kind == 'filter':
+            nt += 1 if len(c) > len({q for q, _ in c}) else 0
+        else:
+            nt += 1 if sum(len(x) for x in c[1]) > c[0] else 0
+        if bad:
+            out.append((c, bad))
+    return len(cases), nt, out[:5], kind
+
+
+def unit_cases():
+    filt = []
+    cells = [(q, c) for q in (1, 2, 3) for c in (1.0, 2.0)]
+    for n in range(0, 5):
+        filt += list(itertools.product(cells, repeat=n))                 # 1 + 6 + 36 + 216 + 1296
+    for combo in itertools.product((1.0, 2.0, 3.0), repeat=5):          # one query, up to five rows, all confidence orders
+        filt.append(tuple((7, c) for c in combo))
+    for combo in itertools.product((1.0, 2.0, 3.0), repeat=3):
+        filt.append(((9, 2.0),) + tuple((7, c) for c in combo) + ((3, 1.0),))
+    sel = []
+    scores = (1.0, 2.0, 2.0, 3.0)
+    shapes = [(a, b) for a in range(0, 4) for b in range(0, 4)]
+    for a, b in shapes:
+        for sa in set(itertools.product((1.0, 2.0, 3.0), repeat=a)):
+            for sb in set(itertools.product((1.0, 2.0, 3.0), repeat=b)):
+                for count in (0, 1, 2, 3, 5):
+                    sel.append((count, (sa, sb)))
+    return filt, sel
 
 
 def bounded(repo, tier, seed):
     n = 56 if tier == 'quick' else 1500
-    return pd.run(repo, tier, seed, ['C05'], MODES if tier != 'quick' else (lambda i: [MODESQ[i % len(MODESQ)]]), n, params_list=PARAMS)
+    r1 = pd.run(repo, tier, seed, ['C05'], MODES if tier != 'quick' else (lambda i: [MODESQ[i % len(MODESQ)]]), n, params_list=PARAMS)
+    filt, sel = unit_cases()
+    chunks = [('filter', filt[i:i + 600]) for i in range(0, len(filt), 600)] + [('select', sel[i:i + 1500]) for i in range(0, len(sel), 1500)]
+    res = pmap(unit_chunk, chunks, repo)
+    viol = {}
+    for cnt, nt, bads, kind in res:
+        fid = FILT if kind == 'filter' else SEL
+        for case, bad in bads:
+            k = f"{fid}::monitor::C05::{bad[0]}"
+            v = dict(key=k, blame=fid, input=dict(unit=kind, case=[list(x) if isinstance(x, tuple) else x for x in case] if kind == 'filter'
+                                                else [case[0], [list(x) for x in case[1]]]), observed=bad, required='C05 statement')
+            viol.setdefault(k, v)
+    r2 = result(sum(r[0] for r in res), sum(r[1] for r in res),
+                "the two selection functions called directly on stub rows / peaks (only the attributes they read): "
+                "filterOutSubsequentAlignmentsForSingleQuery on every list of up to 4 rows over 3 query ids x 2 confidences and every 5-row single-query "
+                "list over 3 confidences (one input row per query, ascending ids, maximal confidence); selectPeaks on two correlations with 0-3 peaks each, "
+                "scores from {1,2,3} with ties, peaksCount 0/1/2/3/5 (exactly min(count, available) seeds, descending, none dropped scores higher); "
+                "non-trivial = something had to be dropped",
+                [dict(unit='filter', case=[list(x) for x in filt[300]]), dict(unit='select', case=[sel[200][0], [list(x) for x in sel[200][1]]])],
+                list(viol.values())[:4], exhaustive=True, bounds="lists of <= 5 rows; <= 6 peaks")
+    return merge([r1, r2])
 
 
-replay = pd.replay
+def replay(repo, rp):
+    i = rp['input']
+    if 'unit' in i:
+        from bcheck.common import use_repo
+        use_repo(repo)
+        if i['unit'] == 'filter':
+            bad = filter_case(tuple(tuple(x) for x in i['case']))
+        else:
+            bad = select_case((i['case'][0], tuple(tuple(x) for x in i['case'][1])))
+        return (not bad), bad
+    return pd.replay(repo, rp)
+
+
 MODES = ['best', 'separate', 'joined', 'all']
 MODESQ = ['best', 'separate', 'all', 'best']
 PARAMS = [{}, {'p': 1}, {'p': 5}, {'p': 2}]
